@@ -40,6 +40,7 @@ type (
 	SSlice struct{ X, Lo, Hi SExpr }
 	SQuant struct {
 		Forall bool
+		MapOf  bool // mapof x T :: e  -- the total map (SMT array) x -> e, introduced by a definitional axiom
 		Vars   []SBind
 		Body   SExpr
 		Pats   [][]SExpr
@@ -195,7 +196,7 @@ func (p *sparser) unary() SExpr {
 		p.next()
 		return &SUnary{Op: "-", X: p.unary()}
 	case token.IDENT:
-		if t.lit == "forall" || t.lit == "exists" {
+		if t.lit == "forall" || t.lit == "exists" || t.lit == "mapof" {
 			return p.quant()
 		}
 	}
@@ -238,7 +239,7 @@ func (p *sparser) typeString() string {
 
 func (p *sparser) quant() SExpr {
 	kw := p.next().lit
-	qe := &SQuant{Forall: kw == "forall"}
+	qe := &SQuant{Forall: kw == "forall", MapOf: kw == "mapof"}
 	for {
 		name := p.expect(token.IDENT).lit
 		ty := p.typeString()
@@ -341,4 +342,36 @@ func (p *sparser) postfix(e SExpr) SExpr {
 			return e
 		}
 	}
+}
+
+// mentionsIdent reports whether the identifier occurs free in the expression (binders of the same name shadow it).
+func mentionsIdent(e SExpr, name string) bool {
+	switch v := e.(type) {
+	case *SIdent:
+		return v.Name == name
+	case *SUnary:
+		return mentionsIdent(v.X, name)
+	case *SBinary:
+		return mentionsIdent(v.X, name) || mentionsIdent(v.Y, name)
+	case *SCall:
+		for _, a := range v.Args {
+			if mentionsIdent(a, name) {
+				return true
+			}
+		}
+	case *SField:
+		return mentionsIdent(v.X, name)
+	case *SIndex:
+		return mentionsIdent(v.X, name) || mentionsIdent(v.I, name)
+	case *SSlice:
+		return mentionsIdent(v.X, name) || (v.Lo != nil && mentionsIdent(v.Lo, name)) || (v.Hi != nil && mentionsIdent(v.Hi, name))
+	case *SQuant:
+		for _, b := range v.Vars {
+			if b.Name == name {
+				return false
+			}
+		}
+		return mentionsIdent(v.Body, name)
+	}
+	return false
 }
